@@ -115,8 +115,17 @@ class Model:
         return tot
 
     def volume(self):
-        t = self.placed_triangles()
-        return float(np.einsum("ij,ij->i", t[:, 0], np.cross(t[:, 1], t[:, 2])).sum() / 6) if len(t) else 0.0
+        # per instance, about a point of the instance: signed tetrahedra about the world origin cancel
+        # catastrophically for a scene that is far from it
+        tot = 0.0
+        for _, g, W in self.placements():
+            G = self.geoms[g]
+            if G["kind"] != "mesh":
+                continue
+            P = tp(W, G["V"])
+            t = (P - P.mean(axis=0))[G["F"]]
+            tot += float(np.einsum("ij,ij->i", t[:, 0], np.cross(t[:, 1], t[:, 2])).sum() / 6)
+        return tot
 
 
 def build_scene(model):
@@ -213,6 +222,11 @@ def scene_family(tier):
     m.geoms["draw"] = {"kind": "path2d", "V": np.array([[0, 0, 0], [3, 0, 0], [3, 1, 0], [0, 2, 0.0]])}
     m.nodes = {"a": ("world", EDGE["T"].copy(), "tet"), "d1": ("a", EDGE["RxT"].copy(), "draw"), "d2": ("world", H(RZ, [5.0, -7.0, 2.0]), "draw")}
     fam["planar drawing instanced out of its plane"] = m
+    # a scene far from the origin: entries of the edge matrices are 2e4, edits are 0.05
+    m = Model()
+    m.geoms = {k: dict(v) for k, v in geoms.items()}
+    m.nodes = {"a": ("world", H(RZ, [2.0e4, -1.5e4, 3.0e3]), "tet"), "b": ("a", H(t=[1.0e4, 2.0, 3.0]), "box")}
+    fam["chain far from the origin"] = m
     return fam
 
 
@@ -418,6 +432,24 @@ def actions():
         m.nodes["a"] = (p, EDGE["RxT"].copy(), g)
         return m
 
+    NUDGE = np.array([0.05, -0.03, 0.0])
+
+    def a_nudge(s):
+        # a small edit of an existing edge (same geometry): it must take effect every time
+        p = s.graph.transforms.parents["a"]
+        M = np.array(s.graph.transforms.edge_data[(p, "a")]["matrix"], dtype=float).copy()
+        M[:3, 3] += NUDGE
+        s.graph.update(frame_to="a", frame_from=p, matrix=M, geometry=s.graph["a"][1])
+        return s
+
+    def spec_nudge(model):
+        m = model.copy()
+        p, L, g = m.nodes["a"]
+        L = L.copy()
+        L[:3, 3] += NUDGE
+        m.nodes["a"] = (p, L, g)
+        return m
+
     def a_geom_edit(s):
         s.geometry["tet"].apply_transform(H(np.eye(3) * 0.5, [1, 0, 0]))
         return s
@@ -530,6 +562,7 @@ def actions():
         ("convert_units(in->mm)", a_units, lambda m: mscale(m, [25.4] * 3), True),
         ("scene + copy", a_add_self, spec_add_self, True),
         ("graph.update(inner edge)", a_edge, spec_edge, False),
+        ("graph.update(small nudge of an existing edge)", a_nudge, spec_nudge, False),
         ("geometry.apply_transform (shared geometry)", a_geom_edit, spec_geom_edit, False),
         ("geometry vertices edited in place", a_geom_inplace, spec_geom_inplace, False),
         ("add_geometry", a_add_geom, spec_add_geom, False),
@@ -625,8 +658,42 @@ def _w(task):
     return t
 
 
+def _w_faceless(_):
+    """A member that has vertices but no faces, in every position among the meshes: baking the scene into one
+    mesh must give exactly the placed triangles of the others."""
+    import trimesh
+
+    t = harness.Tally()
+    bv, bf = box_arrays()
+    parts = {
+        "tet": (trimesh.Trimesh(_TET_V.copy(), _TET_F.copy(), process=False), EDGE["T"]),
+        "box": (trimesh.Trimesh(bv.copy(), bf.copy(), process=False), EDGE["RxT"]),
+        "lone": (trimesh.Trimesh(vertices=_TET_V[:2].copy() + 30.0, faces=np.zeros((0, 3), dtype=np.int64), process=False), EDGE["Rz"]),
+    }
+    want = np.vstack([tp(parts[k][1], np.asarray(parts[k][0].vertices))[np.asarray(parts[k][0].faces)] for k in ("tet", "box")])
+    for order in itertools.permutations(("tet", "box", "lone")):
+        case = {"family": "faceless", "order": list(order)}
+        t.evaluations += 1
+        t.nontrivial_count += 1
+        try:
+            s = trimesh.Scene()
+            for k in order:
+                s.add_geometry(parts[k][0].copy(), node_name="n_" + k, geom_name=k, transform=parts[k][1].copy())
+            got = np.asarray(s.to_mesh().triangles)
+            if canon_tris(got) != canon_tris(want):
+                t.violation("to_mesh() of a scene with a member that has vertices but no faces differs from the placed triangles", case, {"n_got": len(got), "n_want": len(want)})
+                continue
+            if canon_tris(np.asarray(s.triangles)) != canon_tris(want):
+                t.violation("triangles of a scene with a member that has vertices but no faces differ from the placed triangles", case, {})
+        except Exception as e:
+            t.violation(f"scene with a member that has vertices but no faces raises {type(e).__name__}", case, {"exc": repr(e)[:200]})
+    return t
+
+
 def replay(case):
     t = harness.Tally()
+    if case.get("family") == "faceless":
+        return [(k, d) for k, c, d in _w_faceless(None).violations if c.get("order") == case.get("order")]
     fam = scene_family("thorough")
     model = fam[case["scene"]]
     if not case["history"]:
@@ -644,6 +711,7 @@ def main(run):
     run.log(f"{len(tasks)} scenes, history depth {depth}")
     res = harness.pmap(_w, tasks)
     run.merge(res)
+    run.tally.merge(_w_faceless(None))
     n = run.tally.evaluations
     cov = {
         "states": n + len(tasks),
